@@ -947,3 +947,123 @@ func partitionCovers(parent, body *ssa.Function, h *ssa.BasicBlock, ph *ssa.Phi,
 	}
 	return "", true
 }
+
+// producerOrder (R11.k): in createJobs the job producers run one after the
+// other. A producer that sends comparisons without consulting the already-sent
+// maps must not run after a producer that marks individuals as sent: it would
+// send a second comparison for a person that was already matched, and that
+// person ends up twice in the result.
+func producerOrder(p *load.Prog, r *oblig.Run, rule string) {
+	cj := p.Func(load.PkgRoot, "createJobs")
+	if cj == nil {
+		r.Add(rule, "anchor", "-", "anchor").Unknown("createJobs not found")
+		return
+	}
+	type summary struct{ tests, marks, sends bool }
+	sentField := func(v ssa.Value) bool {
+		if ld, isLoad := v.(*ssa.UnOp); isLoad && ld.Op == token.MUL {
+			v = ld.X // the maps are pointer fields
+		}
+		fa, ok := v.(*ssa.FieldAddr)
+		if !ok {
+			return false
+		}
+		n := su.FieldName(fa)
+		return n == "sentA" || n == "sentB"
+	}
+	var summarize func(fn *ssa.Function, s *summary, depth int)
+	summarize = func(fn *ssa.Function, s *summary, depth int) {
+		if fn == nil || depth > 3 {
+			return
+		}
+		for _, b := range fn.Blocks {
+			for _, ins := range b.Instrs {
+				switch x := ins.(type) {
+				case *ssa.Send:
+					s.sends = true
+				case ssa.CallInstruction:
+					cc := x.Common()
+					if len(cc.Args) > 0 && sentField(cc.Args[0]) {
+						if su.CalleeIs(cc, "sync", "Load") {
+							s.tests = true
+						}
+						if su.CalleeIs(cc, "sync", "Store") || su.CalleeIs(cc, "sync", "LoadOrStore") {
+							s.marks = true
+						}
+					}
+				}
+			}
+		}
+		for _, an := range fn.AnonFuncs {
+			summarize(an, s, depth+1)
+		}
+	}
+	type prod struct {
+		call *ssa.Call
+		fn   *ssa.Function
+		s    summary
+	}
+	var prods []prod
+	scan := func(fn *ssa.Function) {
+		for _, c := range su.Calls(fn) {
+			cv, ok := c.(*ssa.Call)
+			if !ok {
+				continue
+			}
+			cal := cv.Call.StaticCallee()
+			if cal == nil || pkgPathOf(cal) != load.PkgRoot || len(cal.Blocks) == 0 {
+				continue
+			}
+			takesJobs := false
+			for _, a := range cv.Call.Args {
+				if ch, isCh := a.Type().Underlying().(*types.Chan); isCh {
+					if n := load.NamedOf(ch.Elem()); n != nil && n.Obj().Name() == "IndividualComparison" {
+						takesJobs = true
+					}
+				}
+			}
+			if !takesJobs {
+				continue
+			}
+			var s summary
+			summarize(cal, &s, 0)
+			if s.sends {
+				prods = append(prods, prod{cv, cal, s})
+			}
+		}
+	}
+	scan(cj)
+	for _, an := range cj.AnonFuncs {
+		scan(an)
+	}
+	if len(prods) < 2 {
+		r.Add(rule, "producers of createJobs", p.Pos(cj.Pos()), "job producers called by createJobs").Unknown(fmt.Sprintf("expected at least two job producers in createJobs, found %d", len(prods)))
+		return
+	}
+	anyMarks, anyTests := false, false
+	for _, pr := range prods {
+		anyMarks = anyMarks || pr.s.marks
+		anyTests = anyTests || pr.s.tests
+	}
+	if !anyMarks || !anyTests {
+		r.Add(rule, "already-sent maps", p.Pos(cj.Pos()), "use of the already-sent maps by the producers").Unknown("no producer marks and no producer consults the already-sent maps: the rule cannot see how duplicates are prevented")
+		return
+	}
+	for _, later := range prods {
+		o := r.Add(rule, "producer "+later.fn.Name(), p.Pos(later.call.Pos()), "what ran before "+later.fn.Name())
+		bad := ""
+		for _, earlier := range prods {
+			if earlier.call == later.call || earlier.call.Parent() != later.call.Parent() || !su.Dominates(earlier.call, later.call) {
+				continue
+			}
+			if earlier.s.marks && !later.s.tests {
+				bad = fmt.Sprintf("%s sends comparisons without consulting the already-sent maps but runs after %s, which marks the individuals it matched: a person matched by the earlier producer is matched again by the later one and appears twice in the merge result", later.fn.Name(), earlier.fn.Name())
+			}
+		}
+		if bad != "" {
+			o.Fail(bad)
+		} else {
+			o.OK("no producer that marks individuals runs before it, or it consults the already-sent maps")
+		}
+	}
+}
